@@ -217,11 +217,7 @@ theorem bsp_shutdown_delivers (hpos : 1 ≤ maxB) (s : St) (h : Reachable cap ma
     · exact Or.inl h2
     · exact Or.inr (Or.inl h2)
 
-/-- exclusion predicate of the late-span race: a span was enqueued after the worker had exited (its `End` passed
-the `stopped` check before the first Shutdown stored the flag and sent after the drain) — it stays in the queue -/
-def LateEnd_applies (s : St) : Bool := s.w == .exited && !(spansOf s.queue).isEmpty
-
-/-- S5 for every `Shutdown` call, partial: unless a late span sits in the exited worker's queue
+/-- S5 for every `Shutdown` call, partial (known finding F41): unless a late span sits in the exited worker's queue
 (`LateEnd_applies`), every span whose `End` had returned before a Shutdown call — the first or any other — is in
 the exporter's log or was counted as dropped when that call has returned nil. -/
 theorem bsp_shutdown_delivers_every_call_partial (hpos : 1 ≤ maxB) (s : St) (h : Reachable cap maxB blocking s)
@@ -236,13 +232,37 @@ theorem bsp_shutdown_delivers_every_call_partial (hpos : 1 ≤ maxB) (s : St) (h
   · exact Or.inr h1
   · rw [hq] at h1; exact absurd h1.1 (by simp)
 
+/-- the F41 classification is tight — if a Shutdown call (the first or any other) has returned nil and a span of its
+own `pre` set is neither in the exporter's log nor counted as dropped, then the late-span race has happened
+(`LateEnd_applies`: a span sits in the exited worker's queue); in the vocabulary of the oracle: if
+`Spec.delivered` fails for that call's own `pre` set, with any reported counter covering the model's drops. -/
+theorem bsp_shutdown_missing_implies_late (hpos : 1 ≤ maxB) (s : St) (h : Reachable cap maxB blocking s)
+    (pre : List Nat) (hret : ShutdownReturnedNil s pre) :
+    ((∃ id ∈ pre, ¬ (id ∈ s.exported.flatten ∨ id ∈ s.droppedIds)) → LateEnd_applies s = true) ∧
+    (∀ dropped, s.droppedIds.length ≤ dropped → Spec.delivered s.blocking pre s.exported dropped = false →
+      LateEnd_applies s = true) := by
+  have hpart := bsp_shutdown_delivers_every_call_partial hpos s h pre hret
+  have hi := inv_reachable cap maxB blocking hpos s h
+  constructor
+  · intro ⟨id, hid, hmiss⟩
+    cases hl : LateEnd_applies s with
+    | true => rfl
+    | false => exact absurd (hpart hl id hid) hmiss
+  · intro dropped hd hnd
+    cases hl : LateEnd_applies s with
+    | true => rfl
+    | false =>
+      have := delivered_of_covered s.blocking pre s.exported s.droppedIds dropped (hpart hl) hd hi.d.dropNB
+      rw [hnd] at this
+      cases this
+
 /-- the full statement of S5 for every Shutdown call (each call's own `pre`, without the exclusion) — NOT a
-theorem of the current code, see the witness below -/
+theorem of the current code (known finding F41), see the witness below -/
 def bsp_shutdown_delivers_every_call_full_statement : Prop :=
   ∀ (cap maxB : Nat) (blocking : Bool), 1 ≤ maxB → ∀ s, Reachable cap maxB blocking s →
     ∀ pre, ShutdownReturnedNil s pre → ∀ id ∈ pre, id ∈ s.exported.flatten ∨ id ∈ s.droppedIds
 
-/-- the schedule of the late-span race: `OnEnd` of span 1 passes the `stopped` check, a first Shutdown runs to
+/-- the schedule of the late-span race F41: `OnEnd` of span 1 passes the `stopped` check, a first Shutdown runs to
 completion (the worker drains an empty queue and exits), `OnEnd` then sends span 1 into the queue and returns; a
 second Shutdown call, made after that `End` returned, returns nil at once although span 1 is never exported. -/
 def lateEndSchedule : List Lbl :=
@@ -425,6 +445,44 @@ theorem bsp_model_history_f22_only_with_shutdown (hpos : 1 ≤ maxB) (s : St) (h
     · exact hc
   · obtain ⟨f, hfm, hph⟩ := hsim.f22e hf
     exact ⟨f, hfm, by simp [F22_applies, hph]⟩
+
+/-- known finding F41 at the level of histories — the oracle judges every nil return of a Shutdown call with that
+call's own `pre` set; on a history of the model it raises its F41 flag only if the late-span race has happened in
+the model (`LateEnd_applies`: a span whose `End` raced the first Shutdown sits in the exited worker's queue). All
+other nil returns of Shutdown calls pass the own-`pre` delivery check, and no violated clause is ever reported
+(`bsp_model_history_passes_driver_oracle`). -/
+theorem bsp_model_history_f41_only_late (hpos : 1 ≤ maxB) (s : St) (h : List Spec.Ev)
+    (hr : ReachableH cap maxB blocking s h) (dropped : Nat) (hd : s.droppedIds.length ≤ dropped)
+    (hf : Spec.histF41 s.blocking dropped h = true) : LateEnd_applies s = true := by
+  have hfull := fullSim_reachableH hpos dropped s h hr hd
+  rw [← (reachable_cfg hr.reachable).2.2] at hfull
+  exact hfull.f41 hf
+
+/-- the F41 classification cannot hide a real loss — for ANY history (any scanner state, not only the model's):
+the oracle newly raises its F41 flag only at a nil return of a Shutdown call, only when every span whose `ended`
+event precedes the FIRST `sdCalled` is delivered (`Spec.delivered … sdPre`; otherwise the verdict is the failure
+`S5:shutdown`), and only because the own `pre` set of the call is not delivered: whatever is missing then has its
+`ended` event after the first `sdCalled`. The list of violated clauses is not touched by that step. -/
+theorem hist_f41_never_hides_first_call_loss (bl : Bool) (d : Nat) (c : Spec.Scan) (ev : Spec.Ev)
+    (hnew : (Spec.scanStep bl d c ev).f41 = true) (hold : c.f41 = false) :
+    ev = .sdReturned true ∧ Spec.delivered bl c.sdPre c.batches d = true ∧
+    (∃ pre, c.sdPres[c.sdOkRets]? = some pre ∧ Spec.delivered bl pre c.batches d = false) ∧
+    (c.inExport = false → (Spec.scanStep bl d c ev).bad = c.bad) := by
+  obtain ⟨h1, h2, pre, h3, h4⟩ := scanStep_f41_new bl d c ev hnew hold
+  refine ⟨h1, h2, ⟨pre, h3, h4⟩, ?_⟩
+  intro hin
+  subst h1
+  simp [Spec.scanStep, hin, h2, h3, h4]
+
+/-- non-vacuity for F41: the history of `lateEndSchedule` — the second Shutdown call is judged with its own `pre`
+set `[1]`, span 1 is never exported: the oracle raises its F41 flag and reports no violated clause; without the
+second call (first 10 labels) the flag stays down. -/
+example : ∃ r, runH (init 4 1 false) [] lateEndSchedule = some r ∧
+    r.2 = [.sdCalled, .expShutdownStart, .expShutdownEnd, .sdReturned true, .ended 1, .sdCalled, .sdReturned true] ∧
+    Spec.histJudge 1 false 0 r.2 = ([], false) ∧ Spec.histF41 false 0 r.2 = true ∧
+    Spec.histF41 false 0 (r.2.take 5) = false := by
+  refine ⟨_, rfl, ?_⟩
+  decide
 
 /-- non-vacuity: the history of `demoSchedule` — two exporter calls, a ForceFlush and a Shutdown that returned
 nil, one dropped span — and the oracle's verdict on it. -/
